@@ -55,3 +55,10 @@ EDITS = [
     {"id": "grid-lower-floordiv", "expect": "silent", "file": Z,
      "old": "                int(math.floor(zeta_bounds[0] / grid_interval_mm)),", "new": "                int(zeta_bounds[0] // grid_interval_mm),"},
 ]
+
+EDITS += [
+    {"id": "translation-table-inverted", "expect": "fire", "rule": "C13.O4", "file": F,
+     "old": "        index_mapping[new_index] = original_index", "new": "        index_mapping[original_index] = new_index"},
+    {"id": "table-keeps-sorted-position", "expect": "fire", "rule": "C13.O4", "file": F,
+     "old": "        ((t - t.min(), H, index) for index, (t, H) in enumerate(series_list)),", "new": "        ((t - t.min(), H, 0) for index, (t, H) in enumerate(series_list)),"},
+]
